@@ -339,6 +339,9 @@ fn main() {
                     machine.verif_trim_heap();
                 }
                 verif::set_tight_growth(on);
+                // "exact": every Heap::reserve also gives back the free cells beyond the
+                // reservation, so a write past ANY reservation leaves the block
+                verif::set_exact_reserve(on && req["exact"].as_bool().unwrap_or(false));
                 json!({"ok": true})
             }
             "consult" => {
